@@ -16,9 +16,11 @@ import Operon.Gen.QuorumConsts
   `bioVoters` models the un-stubbed colony (real `BioAgent`s of role "Voter" from core/agent.py) for three classes
   of proposal text and a plain shared ATP budget.
 
-  Not modelled: console output, timing, statistics/history, callbacks, reliability *updates*
-  (`update_reliability`; the harness sets `reliability_score` directly), `weighted_score` /
-  `confidence_score` are computed but not part of the correspondence (floats).
+  The colony itself (registration by name, `remove_agent` / `set_agent_weight` / `update_reliability` acting on the
+  first member of a name, `votes_cast` / `correct_votes` bookkeeping, `update_all_reliability`) is modelled too.
+
+  Not modelled: console output, timing, statistics, callbacks, `enable_reliability_tracking=False`;
+  `weighted_score` / `confidence_score` are computed but not part of the correspondence (floats).
 -/
 namespace Operon.Quorum
 open Operon.Gen.Quorum
@@ -245,6 +247,140 @@ def runVote (cfg : Cfg) (voters : List Voter) : Result :=
 def runVoteRaises (cfg : Cfg) (voters : List Voter) : Bool :=
   decide (voters.length = 0) && decide (cfg.strategy = .threshold) &&
     !decide (activeCount (collect voters) < cfg.minVoters)
+
+/-! ### The colony: registration, weights, reliability bookkeeping
+
+`run_vote` polls `self.colony` by position: one ballot per colony member, whatever the members are called.
+Names are only used by `remove_agent`, `set_agent_weight` and `update_reliability`, each of which acts on the
+FIRST member carrying the name (names need not be unique: `add_agent` accepts any name). -/
+
+/-- `AgentProfile` (+ the agent's name as code points) -/
+structure Member where
+  name : List Nat
+  weight : Rat
+  rel : Rat          -- reliability_score
+  votesCast : Nat
+  correct : Nat      -- correct_votes
+  deriving Repr, DecidableEq
+
+/-- `f"Bacterium_{i}"` -/
+def builtinName (i : Nat) : List Nat := ("Bacterium_" ++ toString i).toList.map Char.toNat
+
+/-- the colony `QuorumSensing.__init__` creates for `n_agents = n` -/
+def newColony (n : Nat) : List Member := (List.range n).map fun i => ⟨builtinName i, 1, 1, 0, 0⟩
+
+/-- `add_agent(name, weight)`: always appends, also when the name is taken -/
+def addAgent (c : List Member) (name : List Nat) (w : Rat) : List Member := c ++ [⟨name, w, 1, 0, 0⟩]
+
+/-- `remove_agent(name)`: pops the first member with that name -/
+def removeAgent : List Member → List Nat → List Member × Bool
+  | [], _ => ([], false)
+  | m :: rest, name =>
+    if m.name = name then (rest, true)
+    else
+      let r := removeAgent rest name
+      (m :: r.1, r.2)
+
+/-- `set_agent_weight(name, weight)`: first member with that name -/
+def setAgentWeight : List Member → List Nat → Rat → List Member × Bool
+  | [], _, _ => ([], false)
+  | m :: rest, name, w =>
+    if m.name = name then (⟨m.name, w, m.rel, m.votesCast, m.correct⟩ :: rest, true)
+    else
+      let r := setAgentWeight rest name w
+      (m :: r.1, r.2)
+
+/-- what one member's agent does at one vote -/
+structure Behaviour where
+  kind : Kind
+  conf : Conf
+  deriving Repr, DecidableEq
+
+def Behaviour.failed (b : Behaviour) : Bool := decide (b.kind = .raises) || decide (b.conf = .bad)
+
+def voterOfMember (m : Member) (b : Behaviour) : Voter := ⟨b.kind, b.conf, m.weight, m.rel⟩
+
+/-- the electorate of one vote: colony members in order, member `i` with what its agent does this time (`beh i`) -/
+def electorateFrom (beh : Nat → Behaviour) : Nat → List Member → List Voter
+  | _, [] => []
+  | i, m :: rest => voterOfMember m (beh i) :: electorateFrom beh (i + 1) rest
+
+def electorate (c : List Member) (beh : Nat → Behaviour) : List Voter := electorateFrom beh 0 c
+
+/-- `profile.votes_cast += 1` for every member whose vote was recorded without an exception -/
+def afterVoteFrom (beh : Nat → Behaviour) : Nat → List Member → List Member
+  | _, [] => []
+  | i, m :: rest =>
+    (if (beh i).failed then m else ⟨m.name, m.weight, m.rel, m.votesCast + 1, m.correct⟩)
+      :: afterVoteFrom beh (i + 1) rest
+
+def afterVote (c : List Member) (beh : Nat → Behaviour) : List Member := afterVoteFrom beh 0 c
+
+/-- `update_reliability(name, was_correct)` (tracking enabled): first member with that name -/
+def updateReliability : List Member → List Nat → Bool → List Member
+  | [], _, _ => []
+  | m :: rest, name, ok =>
+    if m.name = name then
+      let c := if ok then m.correct + 1 else m.correct
+      (if m.votesCast > 0 then ⟨m.name, m.weight, natR c / natR m.votesCast, m.votesCast, c⟩
+       else ⟨m.name, m.weight, m.rel, m.votesCast, c⟩) :: rest
+    else m :: updateReliability rest name ok
+
+/-- `update_all_reliability(correct_decision)` over the (agent id, vote type) pairs of the last result -/
+def updateAllReliability (c : List Member) (last : List (List Nat × VoteType)) (correct : VoteType) : List Member :=
+  last.foldl (fun acc v => updateReliability acc v.1 (decide (v.2 = correct))) c
+
+/-- direct assignment to `profile.weight` / `profile.reliability_score` of the member at a position -/
+def assignProfile : List Member → Nat → Option Rat → Option Rat → List Member
+  | [], _, _, _ => []
+  | m :: rest, 0, w, r => ⟨m.name, w.getD m.weight, r.getD m.rel, m.votesCast, m.correct⟩ :: rest
+  | m :: rest, i + 1, w, r => m :: assignProfile rest i w r
+
+/-- One public operation on a quorum object. -/
+inductive Op where
+  | setStrategy (s : Strategy) (custom : Option Rat)
+  | add (name : List Nat) (w : Rat)
+  | remove (name : List Nat)
+  | setWeight (name : List Nat) (w : Rat)
+  | assign (i : Nat) (w rel : Option Rat)
+  | vote (beh : Nat → Behaviour)
+  | updateReliability (name : List Nat) (ok : Bool)
+  | updateAll (correct : VoteType)
+
+/-- A quorum object between calls: configuration, colony, and the (agent id, vote type) pairs of the last result. -/
+structure QState where
+  cfg : Cfg
+  colony : List Member
+  last : Option (List (List Nat × VoteType))
+
+/-- the ids and vote types `update_all_reliability` reads back from the last `QuorumResult.votes` -/
+def ballotIds (c : List Member) (r : Result) : List (List Nat × VoteType) :=
+  List.zipWith (fun m v => (m.name, v.kind)) c r.votes
+
+def stepOp (st : QState) : Op → QState × Option Result
+  | .setStrategy s custom => (⟨⟨s, custom, st.cfg.minVoters⟩, st.colony, st.last⟩, none)
+  | .add name w => (⟨st.cfg, addAgent st.colony name w, st.last⟩, none)
+  | .remove name => (⟨st.cfg, (removeAgent st.colony name).1, st.last⟩, none)
+  | .setWeight name w => (⟨st.cfg, (setAgentWeight st.colony name w).1, st.last⟩, none)
+  | .assign i w r => (⟨st.cfg, assignProfile st.colony i w r, st.last⟩, none)
+  | .vote beh =>
+    if runVoteRaises st.cfg (electorate st.colony beh) then (st, none)   -- ZeroDivisionError: nothing recorded
+    else
+      let r := runVote st.cfg (electorate st.colony beh)
+      (⟨st.cfg, afterVote st.colony beh, some (ballotIds st.colony r)⟩, some r)
+  | .updateReliability name ok => (⟨st.cfg, updateReliability st.colony name ok, st.last⟩, none)
+  | .updateAll correct =>
+    match st.last with
+    | none => (st, none)
+    | some l => (⟨st.cfg, updateAllReliability st.colony l correct, st.last⟩, none)
+
+/-- every result a history of operations produces, in order -/
+def runHistory : QState → List Op → List Result
+  | _, [] => []
+  | st, op :: rest =>
+    match stepOp st op with
+    | (st', some r) => r :: runHistory st' rest
+    | (st', none) => runHistory st' rest
 
 /-- How a real `BioAgent` of role "Voter" (core/agent.py) sees the proposal text. -/
 inductive PromptClass where
